@@ -53,6 +53,7 @@ namespace
         double m = 0.5, n = 1.0, dt = 1.0, tol = 1e-3;
         int area_mode = 0;     // 0 accumulate(1), 1 all ones, 2 three-level pattern
         int elev_mode = 0;     // 0 erode the returned (resolved) elevation, 1 erode the raw input
+        int second_call = 0;   // 1: judged on the second erode() call of the same eroder (first call used the other mode)
     };
 
     struct SCase
@@ -86,7 +87,7 @@ namespace
                 o << (i ? " " : "") << c.base[i];
         o << ";prog=" << c.prog.str() << ";K=" << hexd(c.p.k) << ";Karr=" << (c.p.k_array ? 1 : 0) << ";mexp=" << hexd(c.p.m)
           << ";nexp=" << hexd(c.p.n) << ";dt=" << hexd(c.p.dt) << ";tol=" << hexd(c.p.tol) << ";area=" << c.p.area_mode
-          << ";emode=" << c.p.elev_mode;
+          << ";emode=" << c.p.elev_mode << ";call2=" << c.p.second_call;
         return o.str();
     }
 
@@ -119,6 +120,7 @@ namespace
         c.p.tol = unhexd(kv["tol"]);
         c.p.area_mode = std::atoi(kv["area"].c_str());
         c.p.elev_mode = std::atoi(kv["emode"].c_str());
+        c.p.second_call = kv.count("call2") ? std::atoi(kv["call2"].c_str()) : 0;
         return true;
     }
 
@@ -220,10 +222,17 @@ namespace
                     ctx.rep.hit("constructions-that-must-throw");
                     continue;
                 }
+                // two calls on the same eroder object: the elevation mode in force, then the
+                // other one (lakes appear / disappear between the calls)
+                for (int call = 0; call < 2; ++call)
+                {
+                const int emode = call == 0 ? p.elev_mode : 1 - p.elev_mode;
+                c.p.elev_mode = emode;
+                c.p.second_call = call;
                 std::vector<double> h(n), area(n);
                 for (std::size_t i = 0; i < n; ++i)
                 {
-                    h[i] = p.elev_mode == 0 ? s.out[i] : c0.elev[i];
+                    h[i] = emode == 0 ? s.out[i] : c0.elev[i];
                     area[i] = p.area_mode == 0 ? acc1.flat(i) : (p.area_mode == 1 ? 1.0 : 1.0 + static_cast<double>((i * 3) % 3));
                 }
                 arr_t harr = make_field(grid, h), aarr = make_field(grid, area);
@@ -330,6 +339,7 @@ namespace
                     ctx.rep.digest(hh.h);
                     ctx.rep.hit("n_corr>0", er->n_corr() > 0 ? 1 : 0);
                 }
+                }  // calls on the same eroder
             }
         }
     };
@@ -508,6 +518,8 @@ int main(int argc, char** argv)
                                                        using G = std::decay_t<decltype(grid)>;
                                                        Runner<G> r{ ctx, grid, g, geo, a.property };
                                                        ++ctx.rep.worlds;
+                                                       if (c.p.second_call)
+                                                           c.p.elev_mode = 1 - c.p.elev_mode;  // first call uses the other mode
                                                        r.run(c, { c.p });
                                                    });
                                if (!ok)
